@@ -91,18 +91,75 @@ def instances(tier: str) -> list[dict]:
             for O in itertools.combinations(nodes, k):
                 for s in cands[: (1 if tier == "quick" else 2)]:
                     out.append({"part": "batch-objects", "tree": tree, "naming": naming, "sk": "named", "S": [s], "ok": "named" if k == 2 else "sub", "O": list(O)})
+    # the same regex rule on a SEQUENCE of architectures (each discarded before the next is built)
+    for rx in (r"p\.(a|b)$", r"p\.[ab]", r".*\.c"):
+        for verb in ("should_not", "should_only"):
+            out.append({"part": "sequence", "tree": "-", "naming": "-", "rx": rx, "verb": verb})
     for i in out:
         i["cap"] = CAPS[tier]
     return out
 
 
+SEQ_MODS = ["p.a", "p.b", "p.c"]
+SEQ_EDGES = [("p.a", "p.c"), ("p.b", "p.c"), ("p.c", "p.a"), ("p.b", "p.a")]
+
+
+def sequence_outcome(rx: str, verb: str, sel):
+    """Three architectures built one after the other (the previous one is dropped first); module presence and
+    imports are chosen per architecture; on each the regex rule must equal the rule naming the matching modules."""
+    import gc
+    import re as _re
+
+    from vf.engine.stubs_graph import real_architecture
+
+    # all decisions are taken before any stateful code runs, so that a history-dependent implementation cannot
+    # desynchronise the re-execution of the explorer
+    chosen = {(i, m): sel(("mod", i, m)) for i in range(3) for m in SEQ_MODS}
+    for i in range(3):
+        mods = ["p"] + [m for m in SEQ_MODS if chosen[(i, m)]]
+        edges = [(x, y) for x, y in SEQ_EDGES if x in mods and y in mods and sel(("edge", i, x, y))]
+        ev = real_architecture(mods, edges)
+        matching = tuple(m for m in mods if _re.match(rx, m))
+        compact = RuleSpec(verb, "import", False, "regex", (rx,), "named", ("p",))
+        got = evaluate(build_rule(compact), ev, with_message=False)
+        if matching:
+            want = evaluate(build_rule(RuleSpec(verb, "import", False, "named", matching, "named", ("p",)), single_as_list=True), ev, with_message=False)
+        else:
+            want = ("ERROR", "ImpossibleMatch")
+        del ev
+        gc.collect()
+        if got != want:
+            return ("MISMATCH", f"architecture #{i + 1} {mods} {edges}: expansion {list(matching)} gives {want}", f"{got}")
+    return ("OK",)
+
+
+def work_sequence(inst) -> dict:
+    from vf.engine.mm import check_no_mismatch
+    from vf.engine.symex import ENGINE
+
+    rx, verb = inst["rx"], inst["verb"]
+    keys = [(("mod", i, m), 2) for i in range(3) for m in SEQ_MODS]
+
+    def fn():
+        return sequence_outcome(rx, verb, lambda k: ENGINE.branch(k) if k[0] == "mod" else 1)
+
+    def make_payload(assign):
+        return {"kind": "sequence", "rx": rx, "verb": verb, "assign": [[list(k), v] for k, v in sorted(assign.items(), key=str)]}
+
+    return check_no_mismatch(label_of(inst), fn, 1 << 12, make_payload, lambda p: replay_detail(p), all_keys=keys, degenerate=True, sample={"regex": rx})
+
+
 def label_of(i: dict) -> str:
+    if i["part"] == "sequence":
+        return f"sequence of architectures: regex {i['rx']} {i['verb']} import p"
     return f"{i['tree']}/{i['naming']} {i['part']} " + " ".join(f"{k}={i[k]}" for k in ("rx", "pm", "other", "sk", "S", "ok", "O") if k in i)
 
 
 def work(inst: dict) -> dict:
     warnings.simplefilter("ignore")
     warnings.showwarning = lambda *a, **k: None
+    if inst["part"] == "sequence":
+        return work_sequence(inst)
     nodes = concrete(inst["tree"], inst["naming"])
     label = label_of(inst)
     before = solver().stats()
@@ -224,6 +281,18 @@ def work(inst: dict) -> dict:
 
 def replay_detail(payload: dict):
     warnings.simplefilter("ignore")
+    if payload["kind"] == "sequence":
+        assign = {tuple(k): v for k, v in payload["assign"]}
+        # the explorer met this sequence after other sequences in the same process; a history-dependent
+        # implementation needs such a history to misbehave, a correct one ignores it: replay after two fixed warm-ups
+        o = ("OK",)
+        for warm in (0, 1):
+            sequence_outcome(payload["rx"], payload["verb"], lambda k, warm=warm: warm if k[0] == "mod" else 1)
+            o = sequence_outcome(payload["rx"], payload["verb"], lambda k: assign.get(k, 0) if k[0] == "mod" else 1)
+            if o[0] != "OK":
+                break
+        mods = [[m for m in SEQ_MODS if assign.get(("mod", i, m), 0)] for i in range(3)]
+        return o[0] == "OK", f"regex {payload['rx']!r} {payload['verb']} import 'p' on three successive architectures with modules p + {mods}: " + ("each equals its expansion" if o[0] == "OK" else f"{o[1]}, but the regex rule gives {o[2]}"), {"outcome": [str(x)[:300] for x in o]}
     nodes = payload["nodes"]
     edges = [tuple(e) for e in payload["edges"]]
     specs = [RuleSpec.from_json(s) for s in payload["specs"]]
